@@ -435,31 +435,91 @@ pub struct Decider {
     /// decisions made in this run: (condition id, outcome)
     pub trail: Vec<(Id, bool)>,
     seen: HashMap<Id, bool>,
+    /// bounds implied by earlier decisions on comparisons of a term with a constant: (lo, lo_strict, hi, hi_strict)
+    bounds: HashMap<Id, (f64, bool, f64, bool)>,
 }
 thread_local! {
     pub static DECIDER: RefCell<Decider> = RefCell::new(Decider::default());
 }
 pub fn decider_start(prefix: Vec<bool>) {
-    DECIDER.with(|d| *d.borrow_mut() = Decider { prefix, trail: vec![], seen: HashMap::new() });
+    DECIDER.with(|d| *d.borrow_mut() = Decider { prefix, trail: vec![], seen: HashMap::new(), bounds: HashMap::new() });
 }
 pub fn decider_trail() -> Vec<(Id, bool)> {
     DECIDER.with(|d| d.borrow().trail.clone())
 }
-/// Concrete answer for a symbolic condition on the current path.
+
+/// (term, constant, term_is_left, strict): the condition is `term < c` / `term <= c` (left) or `c < term` / `c <= term`
+fn const_cmp(c: SymB) -> Option<(Id, f64, bool, bool)> {
+    with(|a| {
+        let (x, y, strict) = match a.get(c.0) {
+            Node::Lt(x, y) => (*x, *y, true),
+            Node::Le(x, y) => (*x, *y, false),
+            _ => return None,
+        };
+        match (a.konst(x), a.konst(y)) {
+            (None, Some(k)) => Some((x, k, true, strict)),
+            (Some(k), None) => Some((y, k, false, strict)),
+            _ => None,
+        }
+    })
+}
+
+/// Concrete answer for a symbolic condition on the current path. Outcomes that are implied by earlier decisions of the
+/// same path (repeated condition, complementary comparison, comparison of the same term with another constant) are not
+/// new decisions: this prunes the infeasible combinations of range tests such as the six hue zones.
 pub fn decide(c: SymB) -> bool {
     if let Some(v) = c.konst() {
         return v;
     }
+    let cc = const_cmp(c);
+    // complementary condition: !(a < b) == (b <= a)
+    let compl = with(|a| match a.get(c.0).clone() {
+        Node::Lt(x, y) => Some(a.mk(Node::Le(y, x))),
+        Node::Le(x, y) => Some(a.mk(Node::Lt(y, x))),
+        _ => None,
+    });
     DECIDER.with(|d| {
         let mut d = d.borrow_mut();
         if let Some(v) = d.seen.get(&c.0) {
             return *v;
+        }
+        if let Some((t, k, left, strict)) = cc {
+            let (lo, los, hi, his) = *d.bounds.get(&t).unwrap_or(&(f64::NEG_INFINITY, false, f64::INFINITY, false));
+            // implied outcome?
+            let implied = if left {
+                // t < k  /  t <= k
+                if hi < k || (hi == k && (his || !strict)) { Some(true) }
+                else if lo > k || (lo == k && (strict || los)) { Some(false) }
+                else { None }
+            } else {
+                // k < t  /  k <= t
+                if lo > k || (lo == k && (los || !strict)) { Some(true) }
+                else if hi < k || (hi == k && (strict || his)) { Some(false) }
+                else { None }
+            };
+            if let Some(v) = implied {
+                d.seen.insert(c.0, v);
+                return v;
+            }
         }
         let i = d.trail.len();
         let v = if i < d.prefix.len() { d.prefix[i] } else { true };
         assert!(i < 200, "more than 200 decisions on one path");
         d.trail.push((c.0, v));
         d.seen.insert(c.0, v);
+        if let Some(cid) = compl {
+            d.seen.insert(cid, !v);
+        }
+        if let Some((t, k, left, strict)) = cc {
+            let e = d.bounds.entry(t).or_insert((f64::NEG_INFINITY, false, f64::INFINITY, false));
+            // the condition (or its negation) as a bound on t
+            match (left, v) {
+                (true, true) => { if k < e.2 || (k == e.2 && strict) { e.2 = k; e.3 = strict; } }      // t < k / t <= k
+                (true, false) => { if k > e.0 || (k == e.0 && !strict) { e.0 = k; e.1 = !strict; } }    // t >= k / t > k
+                (false, true) => { if k > e.0 || (k == e.0 && strict) { e.0 = k; e.1 = strict; } }      // t > k / t >= k
+                (false, false) => { if k < e.2 || (k == e.2 && !strict) { e.2 = k; e.3 = !strict; } }   // t <= k / t < k
+            }
+        }
         v
     })
 }
